@@ -83,7 +83,11 @@ class RawClient:
                 # reading the reply (TCP: reset; Unix: the server's write hits a closed peer)
                 await self.poll()
                 self.reader = None          # whatever else arrives is not read any more
+                # the reply is left unread in the kernel buffer, then the socket is closed: the
+                # server, idle in its next read, sees a connection reset (TCP and Unix alike)
+                self.writer.transport.pause_reading()
                 self.writer.write(b"num-running\n")
+                await asyncio.sleep(0.05)
                 sock = self.writer.get_extra_info("socket")
                 if sock is not None and sock.family != socket.AF_UNIX:
                     import struct
@@ -339,13 +343,37 @@ def run_scenario(kind, labels, expected, clients_kind, repo_src):
     loop = asyncio.new_event_loop()
     asyncio.set_event_loop(loop)
     limit = STEP_TIMEOUT * (len(labels) + 4) * 3 + 10
+    # a session that spins without ever yielding blocks this very loop, so no asyncio timeout can
+    # fire: a SIGALRM raises a BaseException inside whatever code is running
+    import signal
+
+    class LoopBlocked(BaseException):
+        pass
+
+    def on_alarm(signum, frame):
+        raise LoopBlocked()
+    use_alarm = hasattr(signal, "SIGALRM")
+    if use_alarm:
+        try:
+            old_handler = signal.signal(signal.SIGALRM, on_alarm)
+            signal.alarm(int(limit) + 5)
+        except ValueError:          # not in the main thread
+            use_alarm = False
+    cwd0 = os.getcwd()
     try:
         try:
             return loop.run_until_complete(
                 asyncio.wait_for(scenario(kind, labels, expected, clients_kind, repo_src), limit))
         except asyncio.TimeoutError:
             return [], [f"scenario did not finish within {limit:.0f}s"]
+        except LoopBlocked:
+            os.chdir(cwd0)
+            return [], [f"the event loop was blocked (a coroutine of the server never yields): "
+                        f"scenario did not finish within {limit:.0f}s"]
     finally:
+        if use_alarm:
+            signal.alarm(0)
+            signal.signal(signal.SIGALRM, old_handler)
         for t in asyncio.all_tasks(loop):
             t.cancel()
         with contextlib.suppress(BaseException):
